@@ -814,8 +814,8 @@ def cli_args(case):
     if o["max"] is not None:
         a += ["--max", str(o["max"])]
     for key, flag in (("names", "--name"), ("paths", "--path"), ("excludes", "--exclude")):
-        if o[key]:
-            a += [flag] + o[key]
+        for v in o[key]:
+            a += [flag, v]             # one value per occurrence (clap takes the next word as an input path otherwise)
     if o["regex"]:
         a.append("--regex")
     if o["icase"]:
